@@ -29,6 +29,8 @@ theorem execMsg_custom {m : Msg} {s s' : State} (h : execMsg m s = some s') (hm 
       · cases h
     | credit fx other to => rw [ha] at h; simp only at h; cases h; rfl
     | setCustom url c => simp [keepsCustom, ha] at hm
+    | govDeposit pid amt => rw [ha] at h; simp [addDepositGov, show depositGuardsModule = true from rfl] at h
+    | govSubmit initial exp => rw [ha] at h; simp [submitGov, show depositGuardsModule = true from rfl] at h
 
 theorem execMsgs_custom : ∀ (ms : List Msg) (s s' : State), execMsgs ms s = some s' → noSetCustom ms = true → s'.custom = s.custom := by
   intro ms
